@@ -306,7 +306,7 @@ CHECKS["C03"] = {
              "goroutine to quiescence (blocked receives and deliveries stay pending; the single connection reader issues its next packet only after the previous one returned). A reference model written from state.dot and the godoc predicts "
              "for every step: returns or blocks, the error class (nil / io.EOF / decoded remote error text+code / the caller's error / any non-nil), which packet if any is emitted (kind, control bit, length; ids strictly increasing; whole frames; split size respected), "
              "which blocked calls are released and with what, and Terminated/Finished/Context().Done()/Err() after the step. "
-             "parked: the k-th transport write is held while further calls are issued (frame writer with a buffer of 1, 64 or 4096 bytes, so frames are either written through or stay corked until a flush such as the one the first receive performs; the held write either succeeds or fails when released, as under a closed transport; stream options ManualFlush and MaximumBufferSize 1/16 are drawn too; alternatively the first call to reach one of nine scheduling points inside the stream - in front of a lock, or between writing a message into the frame writer and flushing it - is held there instead of a transport write); invariants at every quiescent point (finished => terminated; a write inside the transport => not finished; terminated with nothing in flight => finished), "
+             "parked: the k-th transport write is held while further calls are issued (frame writer with a buffer of 1, 64 or 4096 bytes, so frames are either written through or stay corked until a flush such as the one the first receive performs; the held write either succeeds or fails when released, as under a closed transport; stream options ManualFlush and MaximumBufferSize 1/16 are drawn too; alternatively the first call to reach one of nine scheduling points inside the stream - in front of a lock, or between writing a message into the frame writer and flushing it - is held there instead of a transport write); invariants at every quiescent point (finished => terminated; the stream's context is done exactly when the stream is finished; a write inside the transport => not finished; terminated with nothing in flight => finished), "
              "after the release nothing stays blocked except receives/deliveries on an unterminated stream, and nothing is emitted after termination except the terminating local call's own packet. "
              "Non-trivial: >= 2 state transitions (sequential); a parked write overlapped >= 2 pending calls (parked). " 
              "recv_after_end (metamorphic): a stream with ManualFlush or a corked first write, 0..2 flushed messages, then the peer ends it (half-close, close, error, cancel; optionally a message of the peer still waiting) and 1..3 receives follow; the same history is run without and with 1..2 messages written but not flushed, and every receive must report the same outcome (error text and code) both times."),
